@@ -35,6 +35,28 @@ func callarg[T any](f any, name string) T        { var z T; return z }
 func callret[T any](f any, i int) T              { var z T; return z }
 func forall(f any) bool                          { return true }
 func exists(f any) bool                          { return true }
+func pendingErr() error                          { return nil }
+func pendingFailed() bool                        { return false }
+func ctxDone() bool                              { return false }
+func fitsInt64(x int64) bool                     { return true }
+func fitsInt32(x int64) bool                     { return true }
+func deferActive(field string) bool              { return false }
+func sameFloat(a, b float64) bool                { return a == b }
+func firstret[T any](f any, i int) T             { var z T; return z }
+func dynret[T any](f any, i int, args ...any) T  { var z T; return z }
+func deferObj[T any](field string) T             { var z T; return z }
+func deferVal[T any](field string) T             { var z T; return z }
+func isNaN(f float64) bool                       { return f != f }
+func isInf(f float64) bool                       { return false }
+func toFloat(i int64) float64                    { return float64(i) }
+func truncF(f float64) float64                   { return f }
+func roundHalfAway(f float64) float64            { return f }
+func f2iInRange64(f float64) bool                { return true }
+func f2iTrunc(f float64) int64                   { return int64(f) }
+func loopEntry[T any](x T) T                     { return x }
+func exactCmpIF(i int64, f float64) int          { return 0 }
+func errIsCtx(err error) bool                    { return false }
+func sameSlice[T any](a, b []T) bool             { return len(a) == len(b) }
 func uninterp[T any](name string, args ...any) T { var z T; return z }
 
 //@ sweep safety C18
